@@ -56,7 +56,7 @@ class Trace:
             self.ex.assume(nows[-1] - nows[first_now_idx] <= 10**6)
         if first_now_idx > 0 and first_now_idx < len(nows):
             g = nows[first_now_idx] - nows[first_now_idx - 1]
-            self.ex.assume(z3.Or(g <= 10**6, g >= 60 * 10**9))
+            self.ex.assume(z3.And(g >= 1, z3.Or(g <= 10**6, g >= 60 * 10**9)))     # distinct instants for distinct calls (ties are outside the claims)
             self.gaps.append((len(self.ops), g))
 
     def publish(self, key, tag):
